@@ -244,6 +244,11 @@ def triAt (elems : Array (Elem α)) (c : Int) : V3 α × V3 α × V3 α :=
   (e.getD 0 ⟨Scalar.zero, Scalar.zero, Scalar.zero⟩, e.getD 1 ⟨Scalar.zero, Scalar.zero, Scalar.zero⟩,
    e.getD 2 ⟨Scalar.zero, Scalar.zero, Scalar.zero⟩)
 
+/-- the kernel value of a (query point, wall element) pair: `ref_search_distance2` / `ref_search_distance3` -/
+def elemDist (twod : Bool) (x : V3 α) (e : Elem α) : α :=
+  let z : V3 α := ⟨Scalar.zero, Scalar.zero, Scalar.zero⟩
+  if twod then dist2seg (e.getD 0 z) (e.getD 1 z) x else dist2tri (e.getD 0 z) (e.getD 1 z) (e.getD 2 z) x
+
 /-- one trip of the chunk loop: `ref_search_create(ncell)`, the insertion loop in the order `perm`
     (`Search.wallBuild`), and the query function `ref_search_nearest_element(search, node_per, xyz, position, &d)` -/
 def treeSearch (twod : Bool) (perm : List Int) (elems : List (Elem α)) : Option (V3 α → α → α) :=
@@ -252,6 +257,14 @@ def treeSearch (twod : Bool) (perm : List Int) (elems : List (Elem α)) : Option
   | (Search.Status.ok, some s) =>
     some (if twod then fun x d => s.nearestSeg (segAt arr) x d else fun x d => s.nearestTri (triAt arr) x d)
   | _ => none
+
+/-- all wall elements of the world: the concatenation of every rank's `ref_phys_local_wall` list -/
+def worldWalls (twod : Bool) (dict : RDict) (w : World (PRank α)) : List (Elem α) :=
+  (w.map (localWall twod dict)).flatten
+
+/-- the brute-force wall distance of a point: `MIN` over all wall elements of the kernel value, from `REF_DBL_MAX` -/
+def wallMin (twod : Bool) (dict : RDict) (w : World (PRank α)) (x : V3 α) : α :=
+  ((worldWalls twod dict w).map (elemDist twod x)).foldl Scalar.cmin dblMax
 
 /-- `ref_phys_wall_distance`; `perms rank chunk` is the insertion order `ref_sort_shuffle` produced there -/
 def wallDistPar (perms : Nat → Nat → List Int) (twod : Bool) (dict : RDict) (w : World (PRank α)) :
